@@ -284,7 +284,9 @@ class MTSPContext(EnvContext):
 
     def _distance_from_depot(self, td):
         # Euclidean distance from the depot (loc[..., 0, :])
-        cur_loc = gather_by_index(td["locs"], td["current_node"])
+        # gather along the node dimension for any number of leading (batch, multi-start) dimensions
+        idx = td["current_node"][..., None, None].expand(*td["current_node"].shape, 1, 2)
+        cur_loc = td["locs"].gather(-2, idx).squeeze(-2)
         return torch.norm(cur_loc - td["locs"][..., 0, :], dim=-1)
 
 
